@@ -197,6 +197,7 @@ class NotificationExceptionHandler(object):
         if (
             (excp_class is RuntimeError)
             and (len(excp.args) > 0)
+            and isinstance(excp.args[0], str)
             and (excp.args[0] == "maximum recursion depth exceeded")
         ):
             sys.__stderr__.write(
